@@ -150,7 +150,7 @@ def run(tier):
         return R.finish(VC.TRUSTED, VC.ASSUME, RULE, "make -C coq Properties/C05.vo")
     M = common.Model()
     n = 2500 if tier == "quick" else 60000
-    cases = VC.gen_pairs(R, n) + VC.edge_pairs(R, n // 12)
+    cases = VC.gen_pairs(R, n) + VC.edge_pairs(R, n // 5)
     run_pairs(R, cases, M)
     # identities with the empty and the universal constraint
     for c in cases[: 400 if tier == "quick" else 5000]:
